@@ -144,8 +144,9 @@ def mkmap_verify_rules(ctx, clause):
         masters = [c for c in body.calls() if any(glob_match(MK + '::verify', n) or glob_match(MKM + '::verify', n) for n in c.names())
                    and has(fn_origins(mv, c.args[0], True), 'pty:MKMapProof.master_proof')]
         removed = set()
+        from engine import gating_edges as _ge
         for c in masters:
-            removed |= track_result(body, c.dest[0], +1).success_edges
+            removed |= _ge(body, c.dest[0], +1, 'ok')[0]
         if masters and not success_reachable(body, removed, 'ok'):
             R.ok(clause, 'R1', 'MKMapProof::verify => master_proof.verify()=ok', '', mv.loc())
         else:
@@ -160,8 +161,9 @@ def mkmap_verify_rules(ctx, clause):
             problems.append('no master_proof.contains(..) call')
         else:
             rem = set()
+            from engine import gating_edges
             for c in conts:
-                rem |= track_result(body, c.dest[0], +1).success_edges
+                rem |= gating_edges(body, c.dest[0], +1, 'ok')[0]
             # the only way around the linkage check is the sub_proofs.is_empty() == true arm
             for c in emp:
                 rem |= track_result(body, c.dest[0], +1).success_edges
@@ -174,8 +176,7 @@ def mkmap_verify_rules(ctx, clause):
                 og = fn_origins(mv, c.args[1], True)
                 cl_ok = False
                 for g in mv.family():
-                    if g is mv:
-                        continue
+                    # (in a `map` closure or written out as a loop in the body)
                     names = [cc.best() for cc in g.body.calls()] + [x.name for x in getattr(g, 'inlined_fns', [])]
                     if any('compute_root' in n for n in names) and any(glob_match('*::Add*::add', n) or 'add' in n.rsplit('::', 1)[-1] for n in names):
                         cl_ok = True
